@@ -1,103 +1,415 @@
-use c13::event::*;
-use c13::node::*;
-use c13::sinks;
-use emit::Emitter;
+//! C13 check binary: generators + registration. Oracles live in `lib.rs`.
+//!
+//! Hidden sub-commands: `--c13-term-child` (the terminal-writer child process, see `sinks.rs`) and
+//! `show <case-or-replay.json>` (dump what every sink produces for one case; debugging aid).
 
-fn p(key: &str, node: Node, cap: Cap) -> Prop {
-    Prop { key: key.into(), val: PV::Node { node, cap } }
+use c13::event::*;
+use c13::node::{self, Node};
+use c13::sinks;
+use c13::{check_event, Sinks, ALL_SINKS, RESERVED, WELL_KNOWN};
+use emit::Emitter;
+use vcore::proptest::prelude::*;
+
+const RULE: &str = "Each case is one event specification (module, template parts with holes, extent none/point/range, ordered property list) whose property values come from a recursive value grammar (null/unit, bool, every integer width at its extremes incl. 128-bit, f32/f64 incl. NaN/±inf/-0, text with control and non-ASCII characters, bytes, options, sequences, tuples, maps with text and non-text keys, structs, enum variants of every form, error chains) captured through from_sval / from_serde / from_display / from_debug / capture_error / plain primitives / typed emit::Level, Kind, TraceId, SpanId; generators build log, span and metric events (well-known keys as typed values and as text, valid and invalid), append duplicates of existing keys and shuffle the list. The event is driven through the real rolling-file writer, four real emit_otlp emitters (all signals x protobuf/JSON, logs-only x protobuf/JSON) against a local HTTP listener, and the real terminal writer in a child process (plain and coloured). A case is NON-TRIVIAL when a structured value has depth >= 2, or a property key is duplicated, or a map has a non-text key, or a 128-bit integer outside i64 or a non-finite float occurs.";
+
+const ASSUMPTIONS: [&str; 12] = [
+    "prost decoding with the types generated in the repository (emitter/otlp/src/data/generated) is taken as 'decodes with the official schema'; prost skips unknown fields, so fields the model does not know are only noticed through the JSON side (unknown JSON members are errors)",
+    "the JSON reader is lenient exactly where DESIGN §C13 says representation is don't-care: 64-bit integers and nanosecond times as numbers or strings, bytesValue as number array or base64, non-finite doubles as null (or the proto3 strings), absent AnyValue as null / {} / missing, resource null; ids must be hex of the right length",
+    "protobuf⇔JSON agreement is judged on the normalised records; non-finite doubles are compared on the protobuf side only; attribute order is not compared when keys are unique",
+    "reference mapping is asserted on the documented core (null, bool, integers, floats, text, bytes, options, sequences/tuples → arrays, text-keyed maps/structs → kvlist / JSON object; integers outside i64 → decimal text in OTLP, bare number tokens in the file); enum variants and maps with non-text keys are judged on well-formedness, no-panic and protobuf⇔JSON agreement only",
+    "property keys exclude the five names the macros reserve (mdl, tpl, msg, ts, ts_start), exception.* and — except where a generator places them deliberately — the well-known keys; keys inside one map value are pairwise distinct",
+    "well-known properties with values outside their domain (lvl that is not a level, ids that are not ids, metric_agg that is not text …) are don't-care: only no-panic, well-formedness and protobuf⇔JSON agreement are required; an absent lvl asserts nothing about severity/status",
+    "which OTLP signal an event is routed to is C14's property: the oracle applies the log / span / metric mapping to whatever record arrived and only requires exactly one record per emitter",
+    "timestamps beyond 2554-07-21 do not fit OTLP's fixed64 nanoseconds: OTLP times are then don't-care (the file must still be exact)",
+    "metric sums are compared with a left fold in f64/i64 (integer overflow and empty sequences are don't-care); gauge points must be one per sample with contiguous, monotone time slices inside the extent (slice width not asserted)",
+    "the message is compared with the harness' reference rendering when every hole refers to a value whose Display text the harness owns (primitives, text captures, typed well-known values, errors, missing keys); otherwise only cross-sink equality of the rendered message is required (template rendering itself is C16)",
+    "terminal writer: child exits 0, plain and coloured output non-empty and containing the template text and plainly rendered holes in order; local-time formatting, colours and layout are not asserted",
+    "one emitter instance serves many cases sequentially (exclusive use per case, flush after every case): effects that need several events in one batch/request are C12's property",
+];
+
+// ---------------------------------------------------------------------------------------------
+// strategies
+
+fn safe_key(mut k: String) -> String {
+    while RESERVED.contains(&k.as_str()) || WELL_KNOWN.contains(&k.as_str()) || k.starts_with("exception.") {
+        k.push('_');
+    }
+    k
 }
 
-fn probe() {
-    let mut evs: Vec<Ev> = Vec::new();
-    let base = |props: Vec<Prop>| Ev {
-        mdl: vec!["a".into(), "b".into()],
-        tpl: vec![TplPart::Text("hello ".into()), TplPart::Hole("x".into())],
-        extent: Ext::Point(Ts(1_700_000_000, 123)),
-        props,
-    };
-    let shapes: Vec<(&str, Node)> = vec![
-        ("null", Node::Null), ("unit", Node::Unit), ("none", Node::None), ("some", Node::Some(Box::new(Node::I32(5)))),
-        ("t", Node::Bool(true)), ("i0", Node::I64(0)), ("u64max", Node::U64(u64::MAX)), ("i128min", Node::i128(i128::MIN)),
-        ("u128small", Node::u128(7)), ("f0", Node::f64(0.0)), ("fneg0", Node::f64(-0.0)), ("nan", Node::f64(f64::NAN)), ("inf", Node::f64(f64::INFINITY)),
-        ("f32", Node::f32(0.1)), ("str", Node::str("a\n\"\u{1b}é😀\0")), ("empty", Node::str("")), ("chr", Node::Char('x')), ("bytes", Node::Bytes(vec![0, 255, 7])),
-        ("bytes0", Node::Bytes(vec![])),
-        ("seq", Node::Seq(vec![Node::I32(1), Node::Null, Node::str("s"), Node::Seq(vec![])])),
-        ("tuple", Node::Tuple(vec![Node::I32(1), Node::Bool(false)])),
-        ("map", Node::Map(vec![(Node::str("k"), Node::I32(1)), (Node::str("n"), Node::Map(vec![]))])),
-        ("strct", Node::Struct { name: 0, first: 0, fields: vec![Node::I32(1), Node::Seq(vec![Node::I32(2), Node::I32(3)])] }),
-        ("vunit", Node::Variant { name: 2, variant: 1, body: VBody::Unit }),
-        ("vnew", Node::Variant { name: 2, variant: 1, body: VBody::Newtype(Box::new(Node::I32(9))) }),
-        ("vtup", Node::Variant { name: 2, variant: 1, body: VBody::Tuple(vec![Node::I32(9), Node::I32(8)]) }),
-        ("vstr", Node::Variant { name: 2, variant: 1, body: VBody::Struct { first: 0, fields: vec![Node::I32(9)] } }),
-        ("oddkeys", Node::Map(vec![(Node::Null, Node::I32(1)), (Node::u128(u128::MAX), Node::I32(2)), (Node::Char('c'), Node::I32(3)), (Node::Variant { name: 2, variant: 1, body: VBody::Unit }, Node::I32(4)), (Node::Some(Box::new(Node::str("sk"))), Node::I32(5))])),
+fn user_key() -> impl Strategy<Value = String> {
+    prop_oneof![
+        4 => "[a-z][a-z0-9_]{0,6}".prop_map(safe_key),
+        2 => node::text().prop_map(safe_key),
+        1 => prop::sample::select(vec!["user", "a", "k", "http.method", "Lvl", "ts ", "msg2"]).prop_map(|s| safe_key(s.to_string())),
+    ]
+}
+
+fn cap() -> impl Strategy<Value = Cap> {
+    prop_oneof![4 => Just(Cap::Sval), 4 => Just(Cap::Serde), 3 => Just(Cap::Prim), 1 => Just(Cap::Display), 1 => Just(Cap::Debug)]
+}
+
+fn any_node() -> impl Strategy<Value = Node> {
+    prop_oneof![3 => node::node(false), 1 => node::node(true)]
+}
+
+fn chain() -> impl Strategy<Value = Vec<String>> {
+    prop::collection::vec(node::text(), 1..4)
+}
+
+fn nz128() -> impl Strategy<Value = u128> {
+    prop_oneof![Just(1u128), Just(u128::MAX), Just(255u128), any::<u128>().prop_map(|v| v.max(1))]
+}
+fn nz64() -> impl Strategy<Value = u64> {
+    prop_oneof![Just(1u64), Just(u64::MAX), Just(77u64), any::<u64>().prop_map(|v| v.max(1))]
+}
+
+fn user_value() -> impl Strategy<Value = PV> {
+    prop_oneof![
+        16 => (any_node(), cap()).prop_map(|(node, cap)| PV::Node { node, cap }),
+        1 => (0u8..4).prop_map(PV::Level),
+        1 => nz128().prop_map(|v| PV::TraceId(v.to_string())),
+        1 => nz64().prop_map(PV::SpanId),
+        1 => chain().prop_map(PV::Error),
+    ]
+}
+
+fn prim(node: Node) -> PV {
+    PV::Node { node, cap: Cap::Prim }
+}
+fn strp(s: &str) -> PV {
+    prim(Node::Str(s.to_string()))
+}
+
+fn lvl_value() -> impl Strategy<Value = PV> {
+    prop_oneof![
+        5 => (0u8..4).prop_map(PV::Level),
+        3 => prop::sample::select(LEVELS.to_vec()).prop_map(strp),
+        1 => prop::sample::select(LEVELS.to_vec()).prop_map(|s| PV::Node { node: Node::Str(s.to_string()), cap: Cap::Sval }),
+        2 => prop::sample::select(vec!["WRN(3)", "Warning", "INFO", "dbg", " warn ", "err", "Error!"]).prop_map(strp),
+        2 => prop_oneof![Just(prim(Node::I32(42))), Just(strp("bogus")), Just(prim(Node::Null)), Just(strp(""))],
+    ]
+}
+
+fn err_value() -> impl Strategy<Value = PV> {
+    prop_oneof![
+        6 => chain().prop_map(PV::Error),
+        2 => node::text().prop_map(|s| prim(Node::Str(s))),
+        2 => (any_node(), prop_oneof![Just(Cap::Sval), Just(Cap::Serde)]).prop_map(|(node, cap)| PV::Node { node, cap }),
+    ]
+}
+
+fn trace_id_value() -> impl Strategy<Value = PV> {
+    prop_oneof![
+        5 => nz128().prop_map(|v| PV::TraceId(v.to_string())),
+        2 => nz128().prop_map(|v| strp(&format!("{v:032x}"))),
+        1 => nz128().prop_map(|v| strp(&format!("{v:032X}"))),
+        1 => nz128().prop_map(|v| PV::Node { node: Node::Str(format!("{v:032x}")), cap: Cap::Serde }),
+        1 => nz128().prop_map(|v| prim(Node::u128(v))),
+        1 => prop_oneof![Just(strp("xyz")), Just(strp("0123456789abcdef0123456789abcde")), Just(strp("00000000000000000000000000000000")), Just(prim(Node::Bool(true))), Just(strp("0123456789abcdef0123456789abcdeg"))],
+    ]
+}
+
+fn span_id_value() -> impl Strategy<Value = PV> {
+    prop_oneof![
+        5 => nz64().prop_map(PV::SpanId),
+        2 => nz64().prop_map(|v| strp(&format!("{v:016x}"))),
+        1 => nz64().prop_map(|v| strp(&format!("{v:016X}"))),
+        1 => nz64().prop_map(|v| PV::Node { node: Node::Str(format!("{v:016x}")), cap: Cap::Sval }),
+        1 => nz64().prop_map(|v| prim(Node::U64(v))),
+        1 => prop_oneof![Just(strp("")), Just(strp("0123456789abcde")), Just(strp("0000000000000000")), Just(prim(Node::f64(1.5))), Just(strp("é123456789abcde"))],
+    ]
+}
+
+fn ts() -> impl Strategy<Value = Ts> {
+    let secs = prop_oneof![
+        2 => Just(0u64),
+        4 => Just(1_700_000_000u64),
+        2 => 0u64..4_102_444_800,
+        1 => Just(18_446_744_073u64),
+        1 => Just(18_446_744_074u64),
+        1 => Just(MAX_SECS),
+        2 => 0u64..=MAX_SECS,
     ];
-    for cap in [Cap::Sval, Cap::Serde] {
-        let mut props = vec![p("x", Node::I32(1), Cap::Prim)];
-        for (k, n) in &shapes {
-            props.push(p(k, n.clone(), cap.clone()));
+    let nanos = prop_oneof![2 => Just(0u32), 1 => Just(1u32), 1 => Just(999_999_999u32), 1 => Just(123_000_000u32), 2 => 0u32..1_000_000_000];
+    (secs, nanos).prop_map(|(s, n)| Ts(s, n))
+}
+
+fn range() -> impl Strategy<Value = Ext> {
+    (ts(), ts(), prop_oneof![Just(0u64), Just(1), Just(1_000_000_000), 0u64..10_000_000_000_000]).prop_map(|(a, b, d)| {
+        // start ≤ end by construction: either two ordered instants or start + a duration
+        if d % 2 == 0 {
+            if a.nanos() <= b.nanos() { Ext::Range(a, b) } else { Ext::Range(b, a) }
+        } else {
+            let end = (a.nanos() + d as u128).min(MAX_SECS as u128 * 1_000_000_000 + 999_999_999);
+            Ext::Range(a, Ts((end / 1_000_000_000) as u64, (end % 1_000_000_000) as u32))
         }
-        evs.push(base(props));
+    })
+}
+
+fn extent(w_none: u32, w_point: u32, w_range: u32) -> impl Strategy<Value = Ext> {
+    prop_oneof![w_none => Just(Ext::None), w_point => ts().prop_map(Ext::Point), w_range => range()]
+}
+
+fn mdl() -> impl Strategy<Value = Vec<String>> {
+    prop::collection::vec("[a-z][a-z0-9_]{0,5}", 1..4)
+}
+
+#[derive(Clone, Debug)]
+enum TplSpec {
+    Text(String),
+    Hole(u32),
+}
+
+fn tpl_spec() -> impl Strategy<Value = Vec<TplSpec>> {
+    prop::collection::vec(
+        prop_oneof![
+            3 => prop_oneof![4 => "[a-zA-Z ,.!]{1,8}", 1 => node::text()].prop_map(TplSpec::Text),
+            2 => any::<u32>().prop_map(TplSpec::Hole),
+        ],
+        0..5,
+    )
+}
+
+fn user_props(max: usize) -> impl Strategy<Value = Vec<Prop>> {
+    prop::collection::vec((user_key(), user_value()).prop_map(|(key, val)| Prop { key, val }), 0..max)
+}
+
+/// Assemble: well-known + user props, duplicates of existing keys, shuffle, resolve template holes.
+fn assemble(
+    mdl: Vec<String>,
+    tpl: Vec<TplSpec>,
+    extent: Ext,
+    mut props: Vec<Prop>,
+    dups: Vec<(u32, PV)>,
+    order: Vec<u32>,
+) -> Ev {
+    for (i, val) in dups {
+        if props.is_empty() {
+            break;
+        }
+        let key = props[vcore::pick(i, props.len())].key.clone();
+        // a duplicate of a well-known key keeps that key's value family where it matters most
+        props.push(Prop { key, val });
     }
-    // well-known + dups + display/debug/error
-    evs.push(base(vec![
-        p("x", Node::str("X"), Cap::Prim), p("x", Node::I32(2), Cap::Prim),
-        Prop { key: "lvl".into(), val: PV::Level(2) }, Prop { key: "lvl".into(), val: PV::Level(0) },
-        Prop { key: "trace_id".into(), val: PV::TraceId("255".into()) }, Prop { key: "span_id".into(), val: PV::SpanId(77) },
-        Prop { key: "err".into(), val: PV::Error(vec!["top".into(), "mid".into(), "root".into()]) },
-        p("disp", Node::Seq(vec![Node::I32(1)]), Cap::Display), p("dbg", Node::str("q"), Cap::Debug),
-        Prop { key: "ulvl".into(), val: PV::Level(3) },
-    ]));
-    // span
-    evs.push(Ev { mdl: vec!["sp".into()], tpl: vec![TplPart::Text("span msg".into())], extent: Ext::Range(Ts(1_700_000_000, 0), Ts(1_700_000_001, 5)),
-        props: vec![Prop { key: "evt_kind".into(), val: PV::Kind(0) }, p("span_name", Node::str("the span"), Cap::Prim),
-            p("trace_id", Node::str("0123456789ABCDEF0123456789abcdef"), Cap::Prim), p("span_id", Node::str("0123456789abcdef"), Cap::Prim),
-            Prop { key: "span_parent".into(), val: PV::SpanId(5) }, Prop { key: "lvl".into(), val: PV::Level(3) },
-            Prop { key: "err".into(), val: PV::Error(vec!["boom".into(), "cause".into()]) }, p("user", Node::I32(1), Cap::Prim), p("user", Node::I32(2), Cap::Prim)] });
-    // metrics
-    for (agg, val) in [("count", Node::I32(42)), ("sum", Node::Seq(vec![Node::f64(1.5), Node::I32(2)])), ("last", Node::Seq(vec![Node::I32(1), Node::f64(f64::NAN), Node::I32(3)])), ("min", Node::f64(f64::INFINITY)), ("sum", Node::f64(f64::NAN))] {
-        evs.push(Ev { mdl: vec!["me".into()], tpl: vec![TplPart::Text("metric msg".into())], extent: Ext::Range(Ts(1_700_000_000, 0), Ts(1_700_000_003, 0)),
-            props: vec![Prop { key: "evt_kind".into(), val: PV::Kind(1) }, p("metric_name", Node::str("m1"), Cap::Prim), p("metric_agg", Node::str(agg), Cap::Prim),
-                p("metric_value", val, Cap::Sval), p("metric_unit", Node::str("ms"), Cap::Prim), p("metric_unit", Node::str("s"), Cap::Prim),
-                p("user", Node::I32(1), Cap::Prim), p("user", Node::I32(2), Cap::Prim), Prop { key: "lvl".into(), val: PV::Level(2) }] });
-    }
-    for ev in &evs {
-        println!("=== EVENT {}", serde_json::to_string(ev).unwrap());
-        sinks::with_pipeline(|pl| {
-            for (name, em) in [("full_proto", &pl.full_proto), ("full_json", &pl.full_json), ("logs_proto", &pl.logs_proto), ("logs_json", &pl.logs_json)] {
-                match vcore::catch(|| ev.with_event(|e| em.emit(e))) {
-                    Ok(()) => {}
-                    Err(f) => println!("  {name}: PANIC {} {}", f.sig, f.msg),
-                }
-                assert!(em.blocking_flush(sinks::FLUSH));
+    // shuffle with generated sort keys (stable; shrinks towards the unshuffled order)
+    let mut keyed: Vec<(u32, Prop)> = props.into_iter().enumerate().map(|(i, p)| (order.get(i).copied().unwrap_or(0), p)).collect();
+    keyed.sort_by_key(|(k, _)| *k);
+    let props: Vec<Prop> = keyed.into_iter().map(|(_, p)| p).collect();
+    let tpl = tpl
+        .into_iter()
+        .map(|t| match t {
+            TplSpec::Text(s) => TplPart::Text(s),
+            TplSpec::Hole(i) => {
+                let n = vcore::pick(i, props.len() + 1);
+                TplPart::Hole(if n < props.len() { props[n].key.clone() } else { "missing_key".to_string() })
             }
-            match vcore::catch(|| ev.with_event(|e| pl.file.emit(e))) {
-                Ok(()) => {}
-                Err(f) => println!("  file: PANIC {} {}", f.sig, f.msg),
+        })
+        .collect();
+    Ev { mdl, tpl, extent, props }
+}
+
+fn dups() -> impl Strategy<Value = Vec<(u32, PV)>> {
+    prop_oneof![
+        5 => Just(Vec::new()),
+        5 => prop::collection::vec(
+            (any::<u32>(), prop_oneof![3 => user_value(), 1 => lvl_value(), 1 => prop::sample::select(vec!["s", "ms", "other"]).prop_map(strp)]),
+            1..3
+        ),
+    ]
+}
+
+fn order() -> impl Strategy<Value = Vec<u32>> {
+    prop_oneof![1 => Just(Vec::new()), 2 => prop::collection::vec(0u32..4, 0..12)]
+}
+
+fn opt<S: Strategy<Value = PV>>(key: &'static str, w_none: u32, w_some: u32, s: S) -> impl Strategy<Value = Option<Prop>> {
+    prop_oneof![w_none => Just(None), w_some => s.prop_map(move |val| Some(Prop { key: key.to_string(), val }))]
+}
+
+fn log_event() -> impl Strategy<Value = Ev> {
+    let wk = (
+        opt("lvl", 4, 6, lvl_value()),
+        opt("err", 6, 4, err_value()),
+        opt("trace_id", 5, 5, trace_id_value()),
+        opt("span_id", 5, 5, span_id_value()),
+    );
+    (mdl(), tpl_spec(), extent(1, 6, 3), wk, user_props(5), dups(), order()).prop_map(|(mdl, tpl, extent, wk, user, dups, order)| {
+        let mut props: Vec<Prop> = [wk.0, wk.1, wk.2, wk.3].into_iter().flatten().collect();
+        props.extend(user);
+        assemble(mdl, tpl, extent, props, dups, order)
+    })
+}
+
+fn span_event() -> impl Strategy<Value = Ev> {
+    let kind = prop_oneof![7 => Just(PV::Kind(0)), 3 => Just(strp("span"))];
+    let wk = (
+        opt("span_name", 3, 7, prop_oneof![6 => node::text().prop_map(|s| prim(Node::Str(s))), 1 => any_node().prop_map(|node| PV::Node { node, cap: Cap::Display })]),
+        opt("trace_id", 1, 9, trace_id_value()),
+        opt("span_id", 1, 9, span_id_value()),
+        opt("span_parent", 5, 5, span_id_value()),
+        opt("lvl", 4, 6, lvl_value()),
+        opt("err", 5, 5, err_value()),
+    );
+    (mdl(), tpl_spec(), extent(1, 1, 18), kind, wk, user_props(4), dups(), order()).prop_map(|(mdl, tpl, extent, kind, wk, user, dups, order)| {
+        let mut props = vec![Prop { key: "evt_kind".into(), val: kind }];
+        props.extend([wk.0, wk.1, wk.2, wk.3, wk.4, wk.5].into_iter().flatten());
+        props.extend(user);
+        assemble(mdl, tpl, extent, props, dups, order)
+    })
+}
+
+fn sample() -> impl Strategy<Value = Node> {
+    prop_oneof![4 => node::int_leaf(), 4 => node::float_leaf(), 1 => node::wide_leaf()]
+}
+
+fn metric_value() -> impl Strategy<Value = PV> {
+    let node = prop_oneof![
+        6 => sample(),
+        6 => prop::collection::vec(sample(), 0..7).prop_map(Node::Seq),
+        1 => prop::collection::vec(sample(), 1..4).prop_map(Node::Tuple),
+        1 => sample().prop_map(|s| Node::Some(Box::new(s))),
+        // not numeric / not flat
+        1 => prop_oneof![Just(Node::str("12")), Just(Node::Bool(true)), Just(Node::Null), Just(Node::None), Just(Node::U64(u64::MAX))],
+        1 => prop::collection::vec(prop::collection::vec(sample(), 0..3).prop_map(Node::Seq), 1..3).prop_map(Node::Seq),
+        1 => prop::collection::vec(prop_oneof![sample(), Just(Node::Null), Just(Node::str("x"))], 1..4).prop_map(Node::Seq),
+        1 => any_node(),
+    ];
+    (node, prop_oneof![Just(Cap::Sval), Just(Cap::Serde), Just(Cap::Prim)]).prop_map(|(node, cap)| PV::Node { node, cap })
+}
+
+fn metric_event() -> impl Strategy<Value = Ev> {
+    let kind = prop_oneof![7 => Just(PV::Kind(1)), 3 => Just(strp("metric"))];
+    let agg = prop_oneof![
+        8 => prop::sample::select(vec!["sum", "count", "last", "min", "max", "p99", "Sum", ""]).prop_map(strp),
+        1 => Just(prim(Node::I32(1))),
+        1 => Just(PV::Node { node: Node::str("count"), cap: Cap::Serde }),
+    ];
+    let wk = (
+        opt("metric_name", 2, 8, node::text().prop_map(|s| prim(Node::Str(s)))),
+        opt("metric_agg", 1, 9, agg),
+        opt("metric_value", 1, 19, metric_value()),
+        opt("metric_unit", 4, 6, prop_oneof![4 => prop::sample::select(vec!["ms", "s", "By", "1", ""]).prop_map(strp), 1 => node::text().prop_map(|s| prim(Node::Str(s)))]),
+        opt("lvl", 7, 3, lvl_value()),
+        opt("err", 9, 1, err_value()),
+        opt("trace_id", 9, 1, trace_id_value()),
+    );
+    (mdl(), tpl_spec(), extent(1, 4, 5), kind, wk, user_props(4), dups(), order()).prop_map(|(mdl, tpl, extent, kind, wk, user, dups, order)| {
+        let mut props = vec![Prop { key: "evt_kind".into(), val: kind }];
+        props.extend([wk.0, wk.1, wk.2, wk.3, wk.4, wk.5, wk.6].into_iter().flatten());
+        props.extend(user);
+        assemble(mdl, tpl, extent, props, dups, order)
+    })
+}
+
+/// Metric time-series for the terminal sparkline: any bucket values.
+fn sparkline_event() -> impl Strategy<Value = Ev> {
+    let bucket = prop_oneof![6 => node::float_leaf(), 2 => node::int_leaf(), 1 => node::wide_leaf(), 1 => Just(Node::Null), 1 => Just(Node::Bool(true))];
+    let value = prop_oneof![
+        8 => prop::collection::vec(bucket.clone(), 0..9).prop_map(Node::Seq),
+        1 => prop::collection::vec(bucket.clone(), 0..4).prop_map(Node::Tuple),
+        1 => bucket,
+    ];
+    (mdl(), extent(1, 3, 6), value, prop_oneof![Just(Cap::Sval), Just(Cap::Serde)], opt("lvl", 5, 5, lvl_value()), opt("err", 8, 2, err_value())).prop_map(
+        |(mdl, extent, node, cap, lvl, err)| {
+            let mut props = vec![
+                Prop { key: "evt_kind".into(), val: PV::Kind(1) },
+                Prop { key: "metric_name".into(), val: strp("m") },
+                Prop { key: "metric_agg".into(), val: strp("last") },
+                Prop { key: "metric_value".into(), val: PV::Node { node, cap } },
+            ];
+            props.extend(lvl);
+            props.extend(err);
+            Ev { mdl, tpl: vec![TplPart::Text("series ".into()), TplPart::Hole("metric_name".into())], extent, props }
+        },
+    )
+}
+
+// ---------------------------------------------------------------------------------------------
+// `show`: dump what every sink produces for one case
+
+fn show(path: &str) {
+    let text = std::fs::read_to_string(path).expect("read case file");
+    let j: serde_json::Value = serde_json::from_str(&text).expect("json");
+    let case = if j.get("case").is_some() { j["case"].clone() } else { j };
+    let ev: Ev = serde_json::from_value(case).expect("case does not deserialise as an event");
+    println!("EVENT {ev:#?}");
+    println!("reference msg = {:?}", ev.ref_msg());
+    sinks::with_pipeline(|pl| {
+        for (name, em) in [("all-signals/protobuf", &pl.full_proto), ("all-signals/json", &pl.full_json), ("logs/protobuf", &pl.logs_proto), ("logs/json", &pl.logs_json)] {
+            if let Err(f) = vcore::catch(|| ev.with_event(|e| em.emit(e))) {
+                println!("otlp {name}: PANIC on the emitting thread: {}", f.msg);
             }
-            assert!(pl.file.blocking_flush(sinks::FLUSH));
-            println!("  FILE: {}", String::from_utf8_lossy(&pl.new_file_bytes().unwrap()));
-            for r in pl.take_requests() {
-                if r.content_type.contains("json") {
-                    println!("  REQ {} [{}]: {}", r.path, r.content_type, String::from_utf8_lossy(&r.body));
+            em.blocking_flush(sinks::FLUSH);
+        }
+        if let Err(f) = vcore::catch(|| ev.with_event(|e| pl.file.emit(e))) {
+            println!("file: PANIC on the emitting thread: {}", f.msg);
+        }
+        pl.file.blocking_flush(sinks::FLUSH);
+        println!("FILE {}", String::from_utf8_lossy(&pl.new_file_bytes().unwrap()));
+        for r in pl.take_requests() {
+            if r.content_type.contains("json") {
+                println!("REQUEST {} [{}]\n  {}", r.path, r.content_type, String::from_utf8_lossy(&r.body));
+            } else {
+                let d = if r.path.ends_with("logs") {
+                    c13::otlp::decode_logs_proto(&r.body)
+                } else if r.path.ends_with("traces") {
+                    c13::otlp::decode_traces_proto(&r.body)
                 } else {
-                    let d = if r.path.ends_with("logs") { c13::otlp::decode_logs_proto(&r.body) } else if r.path.ends_with("traces") { c13::otlp::decode_traces_proto(&r.body) } else { c13::otlp::decode_metrics_proto(&r.body) };
-                    println!("  REQ {} [{}]: {:?}", r.path, r.content_type, d);
-                }
+                    c13::otlp::decode_metrics_proto(&r.body)
+                };
+                println!("REQUEST {} [{}]\n  {:?}", r.path, r.content_type, d);
             }
-        });
-        let t = sinks::run_term_child(ev).unwrap();
-        println!("  TERM ok={} plain={:?} coloured={:?} stderr={:?}", t.status_ok, String::from_utf8_lossy(&t.plain), String::from_utf8_lossy(&t.coloured), t.stderr);
+        }
+    });
+    match sinks::run_term_child(&ev) {
+        Ok(t) => println!("TERM status={} plain={:?} coloured={:?} stderr={:?}", t.status, String::from_utf8_lossy(&t.plain), String::from_utf8_lossy(&t.coloured), t.stderr),
+        Err(e) => println!("TERM child failed to start: {e}"),
     }
     sinks::shutdown();
 }
 
 fn main() {
     let args: Vec<String> = std::env::args().collect();
-    if args.get(1).map(|s| s.as_str()) == Some(sinks::TERM_CHILD_ARG) {
-        sinks::term_child_main();
+    match args.get(1).map(|s| s.as_str()) {
+        Some(sinks::TERM_CHILD_ARG) => sinks::term_child_main(),
+        Some("show") => {
+            show(args.get(2).map(|s| s.as_str()).unwrap_or(""));
+            return;
+        }
+        _ => {}
     }
-    if args.get(1).map(|s| s.as_str()) == Some("probe") {
-        probe();
-        return;
-    }
+    vcore::run("C13", vcore::Level::Exploration, RULE, &ASSUMPTIONS, |s| {
+        // classes DESIGN §C13 marks as required (each ≥5 % / each sink×encoding ≥10 % of ~6k quick cases);
+        // the minimum counts are ~10x below what the quick tier measures
+        for (class, min) in [
+            ("value-depth>=2", 60),
+            ("duplicate-key", 60),
+            ("non-string-map-key", 30),
+            ("scalar-map-key", 10),
+            ("composite-map-key", 5),
+            ("128-bit-or-non-finite", 60),
+            ("enum-variant", 30),
+            ("error-chain", 30),
+            ("capture-serde", 100),
+            ("capture-sval", 100),
+            ("sink-file", 400),
+            ("sink-term", 400),
+            ("otlp-logs-proto", 300),
+            ("otlp-logs-json", 300),
+            ("otlp-traces-proto", 60),
+            ("otlp-traces-json", 60),
+            ("otlp-metrics-proto", 60),
+            ("otlp-metrics-json", 60),
+        ] {
+            s.require(class, min);
+        }
+        s.gen("log-events", s.n(2400, 160_000), log_event, |ev, cx| check_event(ev, cx, ALL_SINKS));
+        s.gen("span-events", s.n(1600, 110_000), span_event, |ev, cx| check_event(ev, cx, ALL_SINKS));
+        s.gen("metric-events", s.n(2000, 130_000), metric_event, |ev, cx| check_event(ev, cx, ALL_SINKS));
+        s.gen("term-sparkline", s.n(1500, 60_000), sparkline_event, |ev, cx| {
+            check_event(ev, cx, Sinks { file: false, otlp: false, term: true })
+        });
+        sinks::shutdown();
+    })
 }
